@@ -56,10 +56,10 @@ class _RecOpt:
         self.signals.append(bool(do_skip))
 
 
-def real_split(n, m):
+def real_split(n, m, idx=None):
     from opacus.utils.batch_memory_manager import BatchSplittingSampler
     opt = _RecOpt()
-    s = BatchSplittingSampler(sampler=[list(range(n))], max_batch_size=m, optimizer=opt)
+    s = BatchSplittingSampler(sampler=[list(range(n)) if idx is None else list(idx)], max_batch_size=m, optimizer=opt)
     chunks = [list(map(int, c)) for c in s]
     return chunks, opt.signals
 
@@ -87,13 +87,32 @@ def sampler_cases(ctx):
         res = split_oracle({"n": n, "max": m})
         if res:
             ctx.property_failure(res[0], res[1], dict(res[2], failing_input={"n": n, "max": m}))
+        # the same split applied to arbitrary index content (shuffled, with repeats: a with-replacement sampler):
+        # the model's positions select from the logical batch
+        if n:
+            idx = [ctx.rng.randrange(max(1, n // 2)) for _ in range(n)] if ctx.rng.random() < 0.5 else ctx.rng.sample(range(3 * n), n)
+            pos = [[int(t) for t in c.split(",") if t != ""] for c in rep.split("|")[1].split()] if "|" in rep else []
+            want = [[idx[i] for i in c] for c in pos]
+            got, _ = real_split(n, m, idx)
+            ctx.count("sampler:arbitrary-index-content")
+            if [c for c in got if c] != [c for c in want if c]:
+                res = split_oracle({"n": n, "max": m, "idx": idx})
+                if res:
+                    ctx.property_failure(res[0], res[1], dict(res[2], failing_input={"n": n, "max": m, "idx": idx}))
+                else:
+                    ctx.mismatch("batch-splitting-sampler", {"n": n, "max": m, "idx": idx}, got, want, oracle=split_oracle)
+            else:
+                ctx.validated()
 
 
 def split_oracle(case):
     n, m = case["n"], case["max"]
-    chunks, signals = real_split(n, m)
+    chunks, signals = real_split(n, m, case.get("idx"))
     flat = [i for c in chunks for i in c]
-    if flat != list(range(n)):
+    if case.get("idx") is not None:
+        if sorted(flat) != sorted(case["idx"]):
+            return ("C10:chunks-do-not-partition", f"logical batch {case['idx']}, max={m}: physical batches {chunks} are not a partition of it (as a multiset)", {})
+    elif flat != list(range(n)):
         return ("C10:chunks-do-not-partition", f"n={n}, max={m}: physical batches {chunks} do not partition the logical batch in order", {})
     if any(len(c) > m for c in chunks):
         return ("C10:chunk-exceeds-max", f"n={n}, max={m}: physical batch sizes {[len(c) for c in chunks]}", {})
@@ -114,9 +133,22 @@ def model_ops_for(sizes, m):
 
 def bmm_oracle(case):
     cfg, sizes, m, acct = tuple(case["cfg"]), case["sizes"], case["max"], case.get("acct", "rdp")
+    kw = {"batches": case.get("batches"), "poisson": tuple(case["poisson"]) if case.get("poisson") else None}
     with rig.default_dtype(torch.float64):
-        a, phys = E.run_real_bmm(cfg, sizes, m, acct=acct, use_bmm=True)
-        b, _ = E.run_real_bmm(cfg, sizes, m, acct=acct, use_bmm=False)
+        a, phys = E.run_real_bmm(cfg, sizes, m, acct=acct, use_bmm=True, **kw)
+        b, logical = E.run_real_bmm(cfg, sizes, m, acct=acct, use_bmm=False, **kw)
+    # the physical batches of each logical batch partition it (multiset; consumed greedily in order)
+    k = 0
+    for lb in logical:
+        got = list(phys[k]) if k < len(phys) else []
+        k += 1
+        while len(got) < len(lb) and k < len(phys):
+            got += phys[k]
+            k += 1
+        if sorted(got) != sorted(lb):
+            return ("C10:chunks-do-not-partition", f"logical batch {lb} (max_physical {m}) reached the model as physical batches covering {got}", {"physical": phys, "logical": logical})
+    if k != len(phys):
+        return ("C10:chunks-do-not-partition", f"{len(phys) - k} physical batches beyond the logical ones", {"physical": phys, "logical": logical})
     ra, rb = EC.released_tokens(a), EC.released_tokens(b)
     ha, hb = EC.parse_line(a[-1])["hist"], EC.parse_line(b[-1])["hist"]
     na = [e for l in a for e in EC.parse_line(l)["events"] if e[0] in "NA"]
@@ -158,10 +190,39 @@ def engine_cases(ctx):
             ctx.validated()
 
 
+def sampler_kind_cases(ctx):
+    """real vs real only (the protocol machine numbers tokens consecutively): logical batches with shuffled and
+    repeated indices, and the real Poisson sampler with a limit around its expected batch size"""
+    cfgs = [(("std", False, False, 1.5, 2.0), "rdp"), (("ghost", False, False, 1.5, 2.0), "rdp")]
+    for i in range(ctx.n(16, 200)):
+        cfg, acct = cfgs[i % 2]
+        if i % 2 == 0:
+            nb = ctx.rng.randint(1, 3)
+            batches = []
+            for _ in range(nb):
+                n = ctx.rng.choice([0, 2, 3, 5, 7, 9])
+                batches.append([ctx.rng.randrange(6) for _ in range(n)] if ctx.rng.random() < 0.6 else ctx.rng.sample(range(12), n))
+            m = ctx.rng.choice([1, 2, 3, 4])
+            case = {"cfg": cfg, "acct": acct, "sizes": [len(b) for b in batches], "max": m, "batches": batches}
+            kind, split = "repeated-or-shuffled-indices", any(len(b) > m for b in batches)
+        else:
+            n = ctx.rng.choice([12, 20, 30])
+            ebs = ctx.rng.choice([3, 4, 6])
+            m = ebs + ctx.rng.choice([-1, 0, 0, 1, 2])
+            case = {"cfg": cfg, "acct": acct, "sizes": [], "max": m, "poisson": [n, ebs / n, ctx.rng.randrange(1 << 30), 3]}
+            kind, split = "poisson-sampler", True
+        ctx.case(("bmm-sampler", cfg, acct, str(case.get("batches")), str(case.get("poisson")), m), nontrivial=split, sample=case, kind=f"engine:{cfg[0]}/{kind}")
+        ctx.count("search:" + kind)
+        res = bmm_oracle(case)
+        if res:
+            ctx.property_failure(res[0], res[1], dict(res[2], failing_input=case))
+
+
 def run(ctx):
     with rig.default_dtype(torch.float64):
         sampler_cases(ctx)
         engine_cases(ctx)
+        sampler_kind_cases(ctx)
 
 
 def replay(ctx, rp):
